@@ -556,6 +556,7 @@ class TimeDependentHAlgorithm(TimeEvolutionAlgorithm):
 
             self.reinit_model()
 
+        self.trunc_err = self.trunc_err + trunc_err  # not += : make a copy!
         if preserve_norm:
             self.psi.norm = old_norm
 
